@@ -285,6 +285,20 @@ fn slice_matrix<B: vm_memory::bitmap::BitmapSlice>(s: &VolatileSlice<B>, cname: 
                 s.copy_from(&buf);
                 Ok(())
             });
+            // buffers of zero-sized elements can be as long as the address space allows
+            // (`vec![x; usize::MAX]` of a zero-sized type allocates nothing)
+            for (ln, blen) in [("isize::MAX", isize::MAX as usize), ("isize::MAX+1", isize::MAX as usize + 1), ("usize::MAX", usize::MAX)] {
+                cell(&format!("slice/{}/copy_to-zst-huge-buf-{}/{}", cname, ln, $tn), true, frame, dirty, || {
+                    let mut buf = vec![<$T>::default(); blen];
+                    let _ = s.copy_to(&mut buf);
+                    Ok(())
+                });
+                cell(&format!("slice/{}/copy_from-zst-huge-buf-{}/{}", cname, ln, $tn), true, frame, dirty, || {
+                    let buf = vec![<$T>::default(); blen];
+                    s.copy_from(&buf);
+                    Ok(())
+                });
+            }
             cell(&format!("slice/{}/copy_to-zst-empty-buf/{}", cname, $tn), true, frame, dirty, || {
                 let mut buf: [$T; 0] = [];
                 let _ = s.copy_to(&mut buf);
